@@ -29,6 +29,9 @@ structure World where
       matched, and whether it was inside an odd number of `!` predicates. Nothing in the semantics reads
       this log; the farthest-failure report of a failed parse is a function of it (C12) -/
   attempts : List Attempt := []
+  /-- set only in the world a PANIC result carries: the rule in which, and the position at which, the panicking code
+      block was called (`Parse` with `Recover(true)` reports the panic there) -/
+  site : Option (Option Rule × Pos) := none
 deriving Inhabited
 
 /-- result of evaluating an expression at a position in a scope -/
@@ -74,6 +77,9 @@ def advance (E : Env) (c : Ctx) (pt : Savepoint) (w : World) : Savepoint × Worl
 def slice (E : Env) (a b : Savepoint) : List Nat := (E.input.drop a.pos.off).take (b.pos.off - a.pos.off)
 
 def atEOF (pt : Savepoint) : Bool := pt.rn = runeError && pt.w = 0
+
+/-- the world of a panic result: where the panic was raised -/
+def panicAt (c : Ctx) (pt : Savepoint) (w : World) : World := { w with site := some (c.rule, pt.pos) }
 
 /-- log the evaluation of a terminal that started at `pt` -/
 def note (c : Ctx) (pos : Pos) (want : String) (matched : Bool) (w : World) : World :=
@@ -197,31 +203,31 @@ def evalStep (loopFuel : Nat) (c : Ctx) (e : Expr) (env : List (String × Val)) 
       let w2 := { w1 with curPos := pt.pos, curText := slice E pt pt' }
       let (r, w3) := call E blk env' pt' w2
       match r.panic with
-      | some p => .panic p w3
+      | some p => .panic p (panicAt c pt' w3)
       | none => .ok r.ret pt' env' (rollback E (addErrAt E c w3 r.err pt.pos) w1.state)
     | r => r
   | .andCode _ blk =>
     let (r, w1) := call E blk env pt w
     match r.panic with
-    | some p => .panic p w1
+    | some p => .panic p (panicAt c pt w1)
     | none =>
       let w2 := rollback E (addErrAt E c w1 r.err pt.pos) w.state
       if r.retB then .ok .nil pt env w2 else .fail env w2
   | .notCode _ blk =>
     let (r, w1) := call E blk env pt w
     match r.panic with
-    | some p => .panic p w1
+    | some p => .panic p (panicAt c pt w1)
     | none =>
       let w2 := rollback E (addErrAt E c w1 r.err pt.pos) w.state
       if !r.retB then .ok .nil pt env w2 else .fail env w2
   | .stateCode _ blk =>
-    if !E.useState then .panic (.str "unknown expression type *main.stateCodeExpr") w else
+    if !E.useState then .panic (.str "unknown expression type *main.stateCodeExpr") (panicAt c pt w) else
     let (r, w1) := call E blk env pt w
     match r.panic with
-    | some p => .panic p w1
+    | some p => .panic p (panicAt c pt w1)
     | none => .ok .nil pt env (addErrAt E c w1 r.err pt.pos)
   | .ruleRef _ name =>
-    if name = "" then .panic (.str "invalid rule: missing name") w else
+    if name = "" then .panic (.str "invalid rule: missing name") (panicAt c pt w) else
     match E.findRule name with
     | none => .fail env (addErrAt E c w (some ("undefined rule: " ++ name)) pt.pos)
     | some r =>
@@ -263,6 +269,47 @@ def parse (E : Env) (fuel : Nat) : Option Res :=
 def initWorld (E : Env) : World :=
   { state := if E.useState then E.opts.initState else [], global := E.opts.initGlobal, errs := [],
     curPos := { line := 0, col := 0, off := 0 }, curText := [], nCalls := 0, trace := [] }
+
+/-- the position of the first rune -/
+def firstPos (E : Env) : Pos := (RT.nextPt E.input RT.pt0).pos
+
+/-- an error raised outside any rule -/
+def topErr (E : Env) (pos : Pos) (msg : String) : String :=
+  errPrefix E { rule := none, handlers := [] } pos ++ ": " ++ msg
+
+/-- **the result contract of `Parse`**, as a function of what the start rule evaluates to:
+    * a match: its value, and the recorded errors, each message once, in order of first occurrence;
+    * no match: a nil value and the recorded errors - or, when nothing was recorded, the single synthesised error
+      "no match found, expected: …" at the farthest failure, computed from the log of terminal evaluations (`book`);
+    * a panic in a code block: with `Recover(true)` a nil value and the recorded errors followed by the panic, reported in
+      the rule and at the position where the block was called; with `Recover(false)` the panic itself. -/
+def finish (E : Env) : Res → Final
+  | .oof => .oof
+  | .ok v _ _ w => .ret v (dedupe w.errs)
+  | .fail _ w =>
+    if w.errs.isEmpty then
+      let b := book (firstPos E) w.attempts
+      .ret .nil [topErr E b.1 (RT.noMatchMessage b.2.reverse).1]
+    else .ret .nil (dedupe w.errs)
+  | .panic p w =>
+    if E.opts.recover then
+      match w.site with
+      | some (rule, pos) =>
+        .ret .nil (dedupe (w.errs ++ [errPrefix E { rule := rule, handlers := [] } pos ++ ": " ++ RT.panicMessage p]))
+      | none => .ret .nil (dedupe w.errs)
+    else .panic p w.errs
+
+/-- a whole `Parse` call -/
+def run (E : Env) (fuel : Nat) : Final :=
+  match E.rules with
+  | [] => .ret .nil [topErr E RT.pt0.pos RT.errNoRule]
+  | first :: _ =>
+    match E.findRule (RT.entryName E first) with
+    | none => .ret .nil [topErr E RT.pt0.pos RT.errInvalidEntrypoint]
+    | some _ =>
+      match parse E fuel with
+      | some res => finish E res
+      | none => .oof
 
 end Spec
 end PV
